@@ -564,6 +564,7 @@ impl Property for ScProp {
                 // every real configuration snapshot must be legal, and enter/exit must be consistent
                 let mut active: BTreeSet<String> = BTreeSet::new();
                 let mut ended = false;
+                let mut tainted_by_history = false;
                 for (oi, o) in real.obs.iter().enumerate() {
                     match o {
                         Obs::Enter(n) => {
@@ -571,7 +572,8 @@ impl Property for ScProp {
                             if !active.insert(n.clone()) {
                                 // class of the double entry: the W3C entry-set computation adds the ancestors between a
                                 // history state's parent and the restored states even when the parent stays active
-                                let via_history = pred.micro_info.iter().rev().find(|(i, _)| *i <= oi).map(|x| x.1).unwrap_or(false);
+                                let via_history = tainted_by_history || pred.micro_info.iter().rev().find(|(i, _)| *i <= oi).map(|x| x.1).unwrap_or(false);
+                                tainted_by_history = via_history;
                                 let sig = if via_history { "double-enter:history-target-while-its-parent-stays-active" } else { "double-enter:other" };
                                 verdict.violations.push(viol("C01", "C01.double-enter", format!("state {} entered while already active", n), sig.into()));
                             }
@@ -579,7 +581,8 @@ impl Property for ScProp {
                         Obs::Exit(n) => {
                             verdict.evaluations += 1;
                             if !active.remove(n) {
-                                verdict.violations.push(viol("C01", "C01.exit-inactive", format!("state {} exited while inactive", n), "exit-inactive".into()));
+                                let sig = if tainted_by_history { "illegal-after:history-target-while-its-parent-stays-active" } else { "exit-inactive" };
+                                verdict.violations.push(viol("C01", if tainted_by_history { "C01.illegal-configuration" } else { "C01.exit-inactive" }, format!("state {} exited while inactive", n), sig.into()));
                             }
                         }
                         Obs::Config(c) => {
@@ -590,7 +593,9 @@ impl Property for ScProp {
                                     // same root cause as the double entry above when the microstep targeted a history
                                     // pseudo-state whose parent stays active: completing the "ancestors" default-enters a
                                     // parallel region in which another transition of the same microstep enters a state
-                                    let via_history = pred.micro_info.iter().rev().find(|(i, _)| *i <= oi).map(|x| x.1).unwrap_or(false);
+                                    // (an illegal configuration stays illegal: later snapshots of the same run are consequences)
+                                    let via_history = tainted_by_history || pred.micro_info.iter().rev().find(|(i, _)| *i <= oi).map(|x| x.1).unwrap_or(false);
+                                    tainted_by_history = via_history;
                                     let sig = if via_history {
                                         "illegal-after:history-target-while-its-parent-stays-active".to_string()
                                     } else {
@@ -598,7 +603,7 @@ impl Property for ScProp {
                                     };
                                     verdict.violations.push(viol("C01", "C01.illegal-configuration", format!("configuration {:?} is not legal: {}", c, e), sig));
                                 }
-                                if *c != active {
+                                if *c != active && !tainted_by_history {
                                     verdict.violations.push(viol("C01", "C01.shadow-mismatch", format!("configuration {:?} differs from the states entered and not exited {:?}", c, active), "shadow".into()));
                                 }
                             }
